@@ -281,6 +281,8 @@ func buildUniverse() (*universe, error) {
 		{"permit-other.test", []string{"other.test"}},
 		{"permit-ample.test", []string{"ample.test"}},
 		{"permit-two", []string{"other.test", "example.test"}},
+		{"permit-two-matching-first", []string{"example.test", "other.test"}},
+		{"permit-three-matching-middle", []string{"x.test", "example.test", "other.test"}},
 	} {
 		pc := pc
 		if err := add(&u.inters, a.with(func(d *desc) { d.id = "A-" + pc.tag; d.permit = pc.permit })); err != nil {
